@@ -10,8 +10,15 @@ recursion-depth budget of the Python calls: statements hold for every sufficient
 The generic theorems need `TableOK T` (ids < 2^32; constructors sharing an id agree in name and fields; every
 conditional field's flags variable precedes it and is the one `result.get('mode', result.get('flags'))`
 finds), which `c14_table_wf` establishes for the bundled table by kernel evaluation.
+With auto-deserialisation on the parse returns `normalize v` (Model/TlNorm.lean: every `bytes`/`string` content run
+through the library's re-parse loop); `c14_fuel_suffices` bounds the needed budget by `tlFuel R (input length)` for
+tables without a cycle of bare references (`NoBareCycle T R`; `c14_table_bare_depth`: R = 5 for the bundled table).
 -/
 import TonVerif.Proofs.TlTable
+import TonVerif.Proofs.TlFuel
+import TonVerif.Proofs.TlBare
+import TonVerif.Proofs.TlVec
+import TonVerif.Proofs.TlMono
 import TonVerif.Proofs.SrcTl
 import TonVerif.Generated.TlFraming
 
@@ -45,33 +52,129 @@ theorem c14_roundtrip_plain (T : Table) (hT : TableOK T) (c : Ctor) (hc : c ∈ 
   obtain ⟨N2, h2⟩ := roundtrip_top T _ false hT (fun h => by cases h) c hc fs body hcan hb
   exact ⟨max N1 N2, fun fuel hf rest => ⟨h1 fuel (by omega), h2 fuel (by omega) rest⟩⟩
 
-/- Full statement of `c14_roundtrip_auto` (DESIGN §6): with auto-deserialisation on the result is `normalize T v`
-(every `bytes` content re-parsed into an object / a list of objects / the raw bytes) and `normalize T v = v`
-when no content starts with a registered id.  Proved here: the second half, i.e. the round trip is the identity
-under that side condition (`byIdLE T b = none` for the content `b` of every bytes/string field, which is
-decidable).  Missing: a closed form of `normalize` for contents that do start with a registered id — the model
-`autoParse` covers them and the correspondence exercises them (objects, lists, untouchables), but no theorem
-relates the result to the nested object's own round trip. -/
-/-- round trip, auto-deserialisation on, when no `bytes`/`string` content starts with a registered
-constructor id: same value, exactly the serialised length consumed. -/
-theorem c14_roundtrip_auto_partial (T : Table) (hT : TableOK T) (c : Ctor) (hc : c ∈ T.ctors) (v : Val) (bs : Bytes)
+/-- round trip, auto-deserialisation ON, in general (DESIGN §6 `c14_roundtrip_auto`): for every constructor of any
+table satisfying `TableOK`, every well-typed value `v` and whatever follows the serialisation,
+`deserialize(serialize(c, v) + rest)` returns `(normalize v, len(serialize(c, v)))`, and raises exactly when `normalize v`
+is `none`.  `normalize T fuel c v` (Model/TlNorm.lean) is `v` in which the content `b` of every `bytes` field - except
+the untouchables of a boxed object - has been replaced by `reparse T _ b`, i.e. by what the library's loop
+`temp, j = deserialize(b); while j < len(b): ...` makes of it (an object, a list, or `b` itself); a `string` field
+whose content is re-parsed into anything but bytes makes the call raise.  No side condition on the contents. -/
+theorem c14_roundtrip_auto (T : Table) (hT : TableOK T) (c : Ctor) (hc : c ∈ T.ctors) (v : Val) (bs : Bytes)
+    (h : tlEncode T (fun _ => True) c v bs) :
+    ∃ N, ∀ fuel, N ≤ fuel → ∀ rest,
+      serialize T fuel c v = some bs ∧
+      deserialize T true fuel (bs ++ rest) = (normalize T fuel c v).map (fun w => (w, bs.length)) := by
+  obtain ⟨N1, h1⟩ := c14_wire T _ c v bs h
+  obtain ⟨fs, body, rfl, _, hb, rfl⟩ := h
+  obtain ⟨N2, h2⟩ := normalized_top T hT c hc fs body hb
+  exact ⟨max N1 N2, fun fuel hf rest => ⟨h1 fuel (by omega), h2 fuel (by omega) rest⟩⟩
+
+/-- `normalize v = v` whenever no `bytes`/`string` content of `v` starts with a registered constructor id
+(`byIdLE T b = none` for every content `b`: decidable). -/
+theorem c14_normalize_id (T : Table) (hT : TableOK T) (c : Ctor) (hc : c ∈ T.ctors) (v : Val) (bs : Bytes)
+    (h : tlEncode T (fun b => byIdLE T b = none) c v bs) :
+    ∃ N, ∀ fuel, N ≤ fuel → normalize T fuel c v = some v := by
+  obtain ⟨fs, body, rfl, hcan, hb, rfl⟩ := h
+  exact normalize_id T hT c hc fs body hcan hb
+
+/-- hence, under that side condition, the round trip with auto-deserialisation on is the identity: same value,
+exactly the serialised length consumed. -/
+theorem c14_roundtrip_auto_id (T : Table) (hT : TableOK T) (c : Ctor) (hc : c ∈ T.ctors) (v : Val) (bs : Bytes)
     (h : tlEncode T (fun b => byIdLE T b = none) c v bs) :
     ∃ N, ∀ fuel, N ≤ fuel → ∀ rest,
       serialize T fuel c v = some bs ∧ deserialize T true fuel (bs ++ rest) = some (v, bs.length) := by
-  obtain ⟨N1, h1⟩ := c14_wire T _ c v bs h
-  obtain ⟨fs, body, rfl, hcan, hb, rfl⟩ := h
-  obtain ⟨N2, h2⟩ := roundtrip_top T _ true hT (fun _ b hb => hb) c hc fs body hcan hb
-  exact ⟨max N1 N2, fun fuel hf rest => ⟨h1 fuel (by omega), h2 fuel (by omega) rest⟩⟩
+  obtain ⟨N1, h1⟩ := c14_roundtrip_auto T hT c hc v bs
+    (by obtain ⟨fs, body, a, b, hb, d⟩ := h; exact ⟨fs, body, a, b, enc_mono T (fun _ _ => trivial) hb, d⟩)
+  obtain ⟨N2, h2⟩ := c14_normalize_id T hT c hc v bs h
+  refine ⟨max N1 N2, fun fuel hf rest => ?_⟩
+  have a := h1 fuel (by omega) rest
+  rw [h2 fuel (by omega)] at a
+  exact a
 
-/-- the two round trips instantiated for ALL bundled constructors at once. -/
+/-- the other side of the side condition, in closed form.  A `bytes` content that is the serialisation of ONE
+well-typed object is replaced by that object's own normal form (the outer call raises iff the inner one does);
+a content that consists of TWO OR MORE serialised well-typed objects (`catSer l`) becomes the list of their normal
+forms (`normEach`).  Together with the definition of `normalize` this relates the result for nested objects to
+the nested objects' own round trips. -/
+theorem c14_reparse_objects (T : Table) (hT : TableOK T) :
+    (∀ (c : Ctor) (v : Val) (b : Bytes), c ∈ T.ctors → tlEncode T (fun _ => True) c v b →
+      ∃ N, ∀ fuel, N ≤ fuel → reparse T fuel b = normalize T fuel c v) ∧
+    (∀ (x y : Ctor × Fields × Bytes) (l : List (Ctor × Fields × Bytes)), AllEnc T (x :: y :: l) →
+      ∃ N, ∀ fuel, N ≤ fuel →
+        reparse T fuel (catSer (x :: y :: l)) = (normEach T fuel (x :: y :: l)).map (fun ws => .list ws)) := by
+  refine ⟨fun c v b hc h => ?_, fun x y l hl => reparse_many T hT x y l hl⟩
+  obtain ⟨fs, body, rfl, _, hb, rfl⟩ := h
+  exact reparse_one T hT c hc fs body hb
+
+/-- the depth budget is monotone for EVERY table and EVERY input: a parse that returns with budget `fuel` returns the
+same value and consumed count with every larger budget (more budget can only turn "recursion too deep" into a result);
+hence a normal form that exists (`some w`) at a large budget is the normal form at every larger budget. -/
+theorem c14_fuel_monotone (T : Table) :
+    (∀ (auto : Bool) (d : Bytes) (fuel fuel' : Nat) (r : Val × Nat), fuel ≤ fuel' →
+      deserialize T auto fuel d = some r → deserialize T auto fuel' d = some r) ∧
+    (∀ (c : Ctor) (v : Val) (bs : Bytes), TableOK T → c ∈ T.ctors → tlEncode T (fun _ => True) c v bs →
+      ∃ N, ∀ fuel fuel' w, N ≤ fuel → fuel ≤ fuel' → normalize T fuel c v = some w → normalize T fuel' c v = some w) := by
+  refine ⟨fun auto d fuel fuel' r hf hr => deserialize_mono T auto d fuel fuel' hf r hr, fun c v bs hT hc h => ?_⟩
+  obtain ⟨N, hN⟩ := c14_roundtrip_auto T hT c hc v bs h
+  refine ⟨N, fun fuel fuel' w h1 h2 hw => ?_⟩
+  have a := (hN fuel h1 []).2
+  have b := (hN fuel' (by omega) []).2
+  rw [hw] at a
+  rw [deserialize_mono T true _ fuel fuel' h2 _ a] at b
+  cases hn : normalize T fuel' c v with
+  | none => rw [hn] at b; simp at b
+  | some w' => rw [hn] at b; simp only [Option.map_some, Option.some.injEq, Prod.mk.injEq, and_true] at b; rw [b]
+
+/-- "fuel suffices": if no constructor of the table reaches itself through bare references (`NoBareCycle T R`: bare
+references nest at most `R` deep), then for ANY input `d` (well formed or not) and either mode the recursion depth of
+`deserialize` is at most `tlFuel R |d| = (|d|/4 + 1)(R + 2)`: every budget from there on gives the same value and
+consumed count, or raises alike.  The same holds for the re-parse of a content. -/
+theorem c14_fuel_suffices (T : Table) (R : Nat) (hR : NoBareCycle T R) (auto : Bool) (d : Bytes) (fuel : Nat)
+    (hf : tlFuel R d.length ≤ fuel) :
+    deserialize T auto fuel d = deserialize T auto (tlFuel R d.length) d ∧
+      reparse T fuel d = reparse T (tlFuel R d.length) d :=
+  ⟨fuel_suffices T R hR auto d fuel hf, reparse_fuel_suffices T R hR d fuel hf⟩
+
+/-- the bundled table has no cycle of bare references: they nest at most 5 deep (kernel evaluation over the
+regenerated table). -/
+theorem c14_table_bare_depth : NoBareCycle Generated.Tl.table 5 := Proofs.TlBare.no_bare_cycle
+
+/-- the auto round trip with an explicit budget: under `NoBareCycle T R` the normal form `normalize T fuel c v` is
+the same `w` for all large budgets, and `deserialize(serialize(c, v) + rest)` returns `(w, len)` (or raises, if `w` is
+`none`) with EVERY budget of at least `tlFuel R (len + |rest|)`. -/
+theorem c14_roundtrip_auto_explicit (T : Table) (hT : TableOK T) (R : Nat) (hR : NoBareCycle T R) (c : Ctor)
+    (hc : c ∈ T.ctors) (v : Val) (bs : Bytes) (h : tlEncode T (fun _ => True) c v bs) :
+    ∃ w : Option Val, (∃ N, ∀ fuel, N ≤ fuel → normalize T fuel c v = w) ∧
+      ∀ rest fuel, tlFuel R (bs ++ rest).length ≤ fuel →
+        deserialize T true fuel (bs ++ rest) = w.map (fun x => (x, bs.length)) := by
+  obtain ⟨fs, body, rfl, _, hb, rfl⟩ := h
+  exact normalized_explicit T hT R hR c hc fs body hb
+
+/-- the side condition of the vector rule of the spec (`Enc.vector`: element count ≤ encoded length, because the
+repaired parser rejects a declared count larger than the remaining input) is implied by the table: a well-typed
+element list of a type whose values occupy at least one byte (`minLen T k e ≥ 1`, bare references followed `k` deep)
+is never longer than its encoding; every vector field of the bundled table has such an element type (`VecOK`, kernel
+evaluation over the regenerated table). -/
+theorem c14_vector_side_condition (T : Table) (P : Bytes → Prop) (k : Nat) :
+    (∀ (e : ETy) (vs : List Val) (bs : Bytes), 1 ≤ minLen T k e → Enc T P (.many e vs) bs → vs.length ≤ bs.length) ∧
+    VecOK Generated.Tl.table 1 :=
+  ⟨fun e vs bs hmin h => many_length_le T P k e vs bs hmin h, bundled_vecOK⟩
+
+/-- the round trips instantiated for ALL bundled constructors at once: auto-deserialisation off; on, under the side
+condition (identity); on, in general (normal form, explicit budget `tlFuel 5`). -/
 theorem c14_bundled (c : Ctor) (hc : c ∈ Generated.Tl.ctors) (v : Val) (bs : Bytes) :
     (tlEncode Generated.Tl.table (fun _ => True) c v bs → ∃ N, ∀ fuel, N ≤ fuel → ∀ rest,
       serialize Generated.Tl.table fuel c v = some bs ∧
       deserialize Generated.Tl.table false fuel (bs ++ rest) = some (v, bs.length)) ∧
     (tlEncode Generated.Tl.table (fun b => byIdLE Generated.Tl.table b = none) c v bs → ∃ N, ∀ fuel, N ≤ fuel → ∀ rest,
       serialize Generated.Tl.table fuel c v = some bs ∧
-      deserialize Generated.Tl.table true fuel (bs ++ rest) = some (v, bs.length)) :=
-  ⟨c14_roundtrip_plain _ c14_table_wf c hc v bs, c14_roundtrip_auto_partial _ c14_table_wf c hc v bs⟩
+      deserialize Generated.Tl.table true fuel (bs ++ rest) = some (v, bs.length)) ∧
+    (tlEncode Generated.Tl.table (fun _ => True) c v bs →
+      ∃ w : Option Val, (∃ N, ∀ fuel, N ≤ fuel → normalize Generated.Tl.table fuel c v = w) ∧
+        ∀ rest fuel, tlFuel 5 (bs ++ rest).length ≤ fuel →
+          deserialize Generated.Tl.table true fuel (bs ++ rest) = w.map (fun x => (x, bs.length))) :=
+  ⟨c14_roundtrip_plain _ c14_table_wf c hc v bs, c14_roundtrip_auto_id _ c14_table_wf c hc v bs,
+    c14_roundtrip_auto_explicit _ c14_table_wf 5 c14_table_bare_depth c hc v bs⟩
 
 /-- framing of `bytes`/`string` for EVERY length below 2^24 (0, 253, 254, 2^24-1, every residue mod 4):
 what `serialize_field` writes is the TL framing, its length is a multiple of 4, and the parser's framing
@@ -137,6 +240,88 @@ example : deserialize toy true 5 (natToLE 4 0x12345678 ++ (intLE 4 1 ++ (encodeB
     some (.obj (some 10) [(0, .int 1), (2, .obj (some 10) [(0, .int 0), (3, .list [])]), (3, .list [])], 28) := by rfl
 example : deserialize toy false 5 (natToLE 4 0x12345678 ++ (intLE 4 1 ++ (encodeBytes inner ++ natToLE 4 0))) =
     some (.obj (some 10) [(0, .int 1), (2, .bytes inner), (3, .list [])], 28) := by rfl
+
+/-- `normalize` on both sides of the side condition: content `010203` (no registered id) is left alone ... -/
+example : normalize toy 5 c10 (.obj (some 10) v10) = some (.obj (some 10) v10) := by rfl
+/-- ... a content that is one serialised `c10` becomes that object ... -/
+example : normalize toy 5 c10 (.obj (some 10) [(0, .int 1), (2, .bytes inner), (3, .list [])]) =
+    some (.obj (some 10) [(0, .int 1), (2, .obj (some 10) [(0, .int 0), (3, .list [])]), (3, .list [])]) := by rfl
+/-- ... two of them become a list of two objects, three bytes of an unknown id after an object stay bytes in the
+list, and contents nest: an object whose own `bytes` field holds an object. -/
+example : normalize toy 5 c10 (.obj (some 10) [(0, .int 1), (2, .bytes (inner ++ inner)), (3, .list [])]) =
+    some (.obj (some 10) [(0, .int 1),
+      (2, .list [.obj (some 10) [(0, .int 0), (3, .list [])], .obj (some 10) [(0, .int 0), (3, .list [])]]),
+      (3, .list [])]) := by rfl
+example : normalize toy 5 c10 (.obj (some 10) [(0, .int 1), (2, .bytes (inner ++ [7, 7, 7])), (3, .list [])]) =
+    some (.obj (some 10) [(0, .int 1),
+      (2, .list [.obj (some 10) [(0, .int 0), (3, .list [])], .bytes [7, 7, 7]]), (3, .list [])]) := by rfl
+def inner2 : Bytes := natToLE 4 0x12345678 ++ (intLE 4 1 ++ (encodeBytes inner ++ natToLE 4 0))
+example : normalize toy 5 c10 (.obj (some 10) [(0, .int 1), (2, .bytes inner2), (3, .list [])]) =
+    some (.obj (some 10) [(0, .int 1),
+      (2, .obj (some 10) [(0, .int 1), (2, .obj (some 10) [(0, .int 0), (3, .list [])]), (3, .list [])]),
+      (3, .list [])]) := by rfl
+/-- the value with the nested content is well typed (hypothesis of `c14_roundtrip_auto`), and `inner` is a
+serialisation as `c14_reparse_objects` wants it. -/
+example : tlEncode toy (fun _ => True) c10 (.obj (some 10) [(0, .int 1), (2, .bytes inner), (3, .list [])])
+    (natToLE 4 0x12345678 ++ (intLE 4 1 ++ (encodeBytes inner ++ ((natToLE 4 0 ++ []) ++ [])))) :=
+  ⟨_, _, rfl, rfl,
+    Enc.bodyReq rfl rfl (Enc.scalar rfl (Enc.nat (by decide) (by decide)))
+      (Enc.bodyOn (fl := 0) (bit := 0) (m := 1) rfl rfl (by decide) (by decide) rfl
+        (Enc.scalar rfl (Enc.bytes (by decide) (by decide) trivial))
+        (Enc.bodyReq rfl rfl (Enc.vector rfl (by decide) (by decide) Enc.manyNil) Enc.bodyNil)), rfl⟩
+example : tlEncode toy (fun _ => True) c10 (.obj (some 10) [(0, .int 0), (3, .list [])])
+    (natToLE 4 0x12345678 ++ (intLE 4 0 ++ ((natToLE 4 0 ++ []) ++ []))) :=
+  ⟨_, _, rfl, rfl,
+    Enc.bodyReq rfl rfl (Enc.scalar rfl (Enc.nat (by decide) (by decide)))
+      (Enc.bodyOff (fl := 0) (bit := 0) (m := 0) rfl rfl (by decide) (by decide) rfl
+        (Enc.bodyReq rfl rfl (Enc.vector rfl (by decide) (by decide) Enc.manyNil) Enc.bodyNil)), rfl⟩
+
+/-- a `string` whose UTF-8 bytes start with a registered id: `normalize` is `none` and the library call raises
+(`c30 s:string = C31`, id 0x64636261 = "abcd" little-endian; the content "abcd" is re-parsed into an object and
+`.decode()` fails), while without auto-deserialisation the value comes back. -/
+def c30 : Ctor := ⟨30, 31, 0x64636261, [⟨6, none, false, .string⟩], []⟩
+def toy2 : Table := ⟨[c10, c20, c30], 0, 1, []⟩
+example : TableOK toy2 := by unfold TableOK; decide
+example : byIdLE toy2 [97, 98, 99, 100] ≠ none := by decide
+example : normalize toy2 5 c30 (.obj (some 30) [(6, .str [97, 98, 99, 100])]) = none := by rfl
+example : deserialize toy2 true 5 (natToLE 4 0x64636261 ++ encodeBytes [97, 98, 99, 100]) = none := by rfl
+example : deserialize toy2 false 5 (natToLE 4 0x64636261 ++ encodeBytes [97, 98, 99, 100]) =
+    some (.obj (some 30) [(6, .str [97, 98, 99, 100])], 12) := by rfl
+
+/-- depth budgets: `toy` has no bare cycle (bare references nest 2 deep), 28 input bytes need at most depth 32; in a
+table whose constructor refers to itself by a bare reference (`cyc x:cyc = Cyc`) no budget suffices - `deserialize`
+fails for every `fuel` (Python: RecursionError), so the side condition of `c14_fuel_suffices` is needed. -/
+example : NoBareCycle toy 2 := by unfold NoBareCycle; decide
+example : tlFuel 2 28 = 32 := by decide
+def cyc : Table := ⟨[⟨1, 2, 7, [⟨3, none, false, .bare 1⟩], []⟩], 0, 1, []⟩
+example (R : Nat) : ¬ NoBareCycle cyc R := by
+  intro h
+  have key : ∀ k, bareArgsOK cyc k [⟨3, none, false, .bare 1⟩] = false := by
+    intro k
+    induction k with
+    | zero => rfl
+    | succ k ih =>
+      have hb : cyc.byName 1 = some ⟨1, 2, 7, [⟨3, none, false, .bare 1⟩], []⟩ := by decide
+      simp [bareArgsOK, hb, ih]
+  have := h _ (List.mem_singleton.mpr rfl)
+  rw [key] at this
+  cases this
+example (fuel : Nat) : deserialize cyc true fuel (natToLE 4 7) = none := by
+  have hb : cyc.byName 1 = some ⟨1, 2, 7, [⟨3, none, false, .bare 1⟩], []⟩ := by decide
+  have key : ∀ f d, deserObj cyc true f d (some [⟨3, none, false, .bare 1⟩]) = none := by
+    intro f
+    induction f with
+    | zero => intro d; rfl
+    | succ f ih => intro d; simp [deserObj, deserBody, deserArg, deserOne, hb, ih]
+  cases fuel with
+  | zero => rfl
+  | succ f =>
+    have hid : byIdLE cyc (natToLE 4 7) = some ⟨1, 2, 7, [⟨3, none, false, .bare 1⟩], []⟩ := by decide
+    simp [deserialize, deserObj, hid, deserBody, deserArg, deserOne, hb, key]
+
+/-- `c14_vector_side_condition` on the toy table: `xs:(vector int)` elements occupy 4 bytes; the two-element list of
+`v10` is shorter than its 8-byte encoding. -/
+example : VecOK toy 0 := vecOK_of_b toy 0 (by decide)
 
 /-- block ids: the masterchain shard id with 32-byte hashes meets the hypotheses. -/
 example : let b : BlockIdExt := ⟨-1, -9223372036854775808, 5, List.replicate 32 7, List.replicate 32 9⟩
